@@ -9,16 +9,16 @@ TABLES = ["_publish_reqs", "_subscribe_reqs", "_unsubscribe_reqs", "_register_re
 
 
 def build(reg):
-    W.build_shapes(reg)
     common = dict(props=["C04"], spec_module="specs.wamp")
-    # request ids: sequential from 1, always within 1..2^53
     reg.shape("IdGenerator", cls="autobahn.util:IdGenerator", fields={"_next": "int"})
+    # request ids: sequential from 1, always within 1..2^53
     reg.contract("autobahn.util:IdGenerator.next", params={"self": "obj:IdGenerator"}, returns="int",
                  requires=["0 <= self._next <= 2**53"], modifies=["self._next"],
                  ensures=["1 <= result <= 2**53", "result == self._next",
                           "result == old(self._next) + 1 or (old(self._next) == 2**53 and result == 1)"], **common)
     reg.contract("autobahn.util:IdGenerator.__init__", params={"self": "obj:IdGenerator"}, modifies=["self._next"],
                  ensures=["self._next == 0"], **common)
+    W.build_shapes(reg)
 
     def reply(mshape, fields, table, rec, extra_mod, clauses, name=None, extra_req=(), extra_raise="", loop=None):
         """one reply arm of ApplicationSession.onMessage: msg is an instance of exactly that message class"""
